@@ -208,6 +208,13 @@ var faultTemplates = []string{
 	"root packet P { u8 k, match k as b { 1: P, }, }",
 	"root packet P { A a, }\npacket A { B b, }\npacket B { A a, }",
 	"root packet P { P p, }",
+	"root packet P { A a, }\npacket A { B b, }\npacket B { C c, }\npacket C { A back, }",
+	"packet A { B b, }\npacket B { C c, }\npacket C { D d, }\npacket D { A back, }\nroot packet P { A a, }",
+	"root packet P { u8 k, match k as m { 1: A, }, }\npacket A { B b, }\npacket B { u8 j, match j as n { 1: C, }, }\npacket C { A back, }",
+	"root packet P { u8 k, match k as b { 1: A, 2: A, 3: B, [4, 5]: B, }, zchar[4] z, char[3] c, }\npacket A { u8 x, }\npacket B { u8 y, }",
+	"root packet P { A a, B b, C c, D d, u8 k, match k as m { 1: A, 2: B, 3: C, 4: D, }, In { B b2, C c2, }, }\npacket A { B ab, C ac, D ad, }\npacket B { u8 y, }\npacket C { u8 z, }\npacket D { u8 w, }",
+	"root packet P { In { E e, F f, G g, H h, }, }\npacket E { u8 x, }\npacket F { u8 x, }\npacket G { u8 x, }\npacket H { u8 x, }",
+	"options { FixedStringPadChar = '\\x00'; }\nroot packet P { char[4] a, @leftPad('\\x00') char[4] b, zchar[2] c, repeat zchar[2] d, }",
 	"root packet P { In { P p, }, }",
 	"root packet P { A a, }\npacket A { In { P back, }, }",
 	"root packet P { In { u8 k, match k as b { 1: P, }, }, }",
